@@ -45,7 +45,9 @@ RULE = ("random cases in blocks: a dataset (1-4 dimensions, axis lengths 1-4 (th
         "all axes / (), finite, positive, n_chunk_max from 1 up) or a histogram query (attribute kind, weights, range "
         "kind incl. reversed / data-valued ends / integer-aligned edges, 1-12 bins, linear or log, selection kind; one in "
         "five over two attributes); "
-        "plus a grid over 5 fixed shapes x every kept axis x every n_chunk_max 1..size+1 x 8 selection kinds x 6 "
+        "plus magnitude blocks (an attribute spanning three decades below each of 0.003, 0.5, 1, 50, 3e4, 1e8, 2.5e8, 7e10, "
+        "1e12, histogrammed 1-d / 2-d / through the viewer layer in log and linear space over its own min/max or two of "
+        "its values), plus a grid over 5 fixed shapes x every kept axis x every n_chunk_max 1..size+1 x 8 selection kinds x 6 "
         "statistics that drives the chunk loop, and viewer-layer cases (ProfileLayerState.profile, "
         "HistogramLayerState.histogram, IndexedData.compute_statistic). One evaluation per compared call; the "
         "fingerprint is the structural query (attribute kind, statistic, selection kind, view kind, axis kind, filters, "
@@ -613,6 +615,8 @@ def run_hist_query(ctx, rng, ds, q, api="compute_histogram", layer_call=None, se
     feats["upper_end"] = "negative" if top < 0 else ("zero" if top == 0 else "positive")
     xfull = ds.raw[q["attr"]]
     feats["has_value_at_upper_end"] = bool(np.any(fullmask & (xfull == hi)))
+    if feats["has_value_at_upper_end"]:
+        ctx.count("hist_value_at_%s_%supper_end" % (feats["upper_end"], "log_" if q["log"] else ""))
     rng_arg = (hi, lo) if q["reversed"] else (lo, hi)
     ctx.evaluation(["hist", api, feats["attr_kind"], feats["weights_kind"], feats["log"], q["sel_kind"], q["range_kind"],
                     q["reversed"], q["bins"], q["bins_kind"], list(ds.shape)], nin >= 2)
@@ -678,7 +682,13 @@ def run_hist_query(ctx, rng, ds, q, api="compute_histogram", layer_call=None, se
         return
     if not ok:
         sig = dict(feats)
-        sig.update({"kind": "bin_mismatch"})
+        d2, a2, t2, _ = hist_reference(ds, dict(q), fullmask & ~(xfull == hi))
+        if q["weights"] is not None and hist_consistent(g.tolist(), d2, a2, True):
+            # values equal to the upper end are missing; their weights happen to cancel in the total
+            sig.update({"kind": "total_mismatch", "explained_by_dropping_values_equal_to_upper_end": True,
+                        "nonfinite_bins": False, "weight_sum_coincides": True})
+        else:
+            sig.update({"kind": "bin_mismatch"})
         ctx.violation(sig, witness({"got": g}))
         return
     if ctx.rng.random() < 0.0006:
@@ -787,7 +797,13 @@ def run_hist2d_query(ctx, rng, ds, qx, qy, sel):
         return
     if namb == 0 and not np.allclose(g, exp, rtol=0, atol=tol):
         sig = dict(feats)
-        sig.update({"kind": "bin_mismatch", "transposed_would_match": bool(g.T.shape == exp.shape and np.allclose(g.T, exp, rtol=0, atol=tol))})
+        e2, n2, t2, _ = reference(fullmask & ~at_top)
+        if weights is not None and n2 == 0 and np.allclose(g, e2, rtol=0, atol=tol):
+            # values equal to an upper end are missing; their weights happen to cancel in the total
+            sig.update({"kind": "total_mismatch", "explained_by_dropping_values_equal_to_upper_end": True,
+                        "nonfinite_bins": False, "weight_sum_coincides": True})
+        else:
+            sig.update({"kind": "bin_mismatch", "transposed_would_match": bool(g.T.shape == exp.shape and np.allclose(g.T, exp, rtol=0, atol=tol))})
         ctx.violation(sig, witness({"got": g}))
 
 
@@ -823,7 +839,6 @@ def run_hist_block(ctx, tier):
 
 # ---------------------------------------------------------------- viewer layers and derived datasets
 def run_viewer_block(ctx, tier):
-    from glue.viewers.histogram.state import HistogramLayerState, HistogramViewerState
     from glue.viewers.profile.state import ProfileLayerState, ProfileViewerState
     rng = ctx.rng
     for _ in range(4):
@@ -926,34 +941,105 @@ def run_viewer_block(ctx, tier):
                 q["sel_kind"] = "ineq"
             if q["attr"] == "c":
                 q["attr"] = "i"
-            group_box = []
-
-            def layer_call(state, rng_arg, q=q, ds=ds, group_box=group_box):
-                d = ds.data
-                hv = HistogramViewerState()
-                if state is None:
-                    layer = d
-                else:
-                    group_box.append(ds.dc.new_subset_group(subset_state=state, label="s"))
-                    layer = group_box[0].subsets[0]
-                hl = HistogramLayerState(viewer_state=hv, layer=layer)
-                hv.layers.append(hl)
-                hv.x_att = cid_of(ds, q["attr"])
-                hv.x_log = q["log"]
-                hv.hist_x_min, hv.hist_x_max = rng_arg
-                hv.hist_n_bin = q["bins"]
-                edges, values = hl.histogram
-                edges = np.asarray(edges, dtype=float)
-                if edges.shape != (q["bins"] + 1,) or not close(edges[[0, -1]], np.array(rng_arg, dtype=float)):
-                    raise AssertionError("histogram edges do not span the requested range: %r" % (edges,))
-                return values
-            try:
-                run_hist_query(ctx, rng, ds, q, api="HistogramLayerState.histogram", layer_call=layer_call)
-            finally:
-                for g in group_box:
-                    ds.dc.remove_subset_group(g)
+            run_hist_through_layer(ctx, rng, ds, q)
             ctx.count("histogram_layer_calls")
     ctx.count("viewer_blocks")
+
+
+def run_hist_through_layer(ctx, rng, ds, q, sel=None):
+    """The same histogram query through HistogramViewerState / HistogramLayerState (what the viewer plots)."""
+    from glue.viewers.histogram.state import HistogramLayerState, HistogramViewerState
+    group_box = []
+
+    def layer_call(state, rng_arg):
+        d = ds.data
+        hv = HistogramViewerState()
+        if state is None:
+            layer = d
+        else:
+            group_box.append(ds.dc.new_subset_group(subset_state=state, label="s"))
+            layer = group_box[0].subsets[0]
+        hl = HistogramLayerState(viewer_state=hv, layer=layer)
+        hv.layers.append(hl)
+        hv.x_att = cid_of(ds, q["attr"])
+        hv.x_log = bool(q["log"])
+        hv.hist_x_min, hv.hist_x_max = rng_arg
+        hv.hist_n_bin = q["bins"]
+        edges, values = hl.histogram
+        edges = np.asarray(edges, dtype=float)
+        if edges.shape != (q["bins"] + 1,) or not close(edges[[0, -1]], np.array(sorted(rng_arg), dtype=float)):
+            raise AssertionError("histogram edges do not span the requested range: %r" % (edges,))
+        return values
+    try:
+        run_hist_query(ctx, rng, ds, q, api="HistogramLayerState.histogram", layer_call=layer_call, sel=sel)
+    finally:
+        for g in group_box:
+            ds.dc.remove_subset_group(g)
+
+
+# ---------------------------------------------------------------- magnitudes
+# upper range ends across magnitudes; the range is the data's own min/max, so selected values equal both ends
+MAGNITUDES = [0.003, 0.5, 1.0, 50.0, 3e4, 1e8, 2.5e8, 7e10, 1e12]
+
+
+def magnitude_column(rng, shape, top):
+    """Positive values spanning three decades below `top`, with `top` itself (the upper end) and top/1000 (the lower
+    end) present at least once, some duplicates of both and some values on round fractions of `top`."""
+    n = int(np.prod(shape))
+    pool = [1.0, 1.0, 1e-3, 0.5, 0.25, 0.1, 0.01, 1e-3]
+    fr = [rng.choice(pool) if rng.random() < 0.45 else 10 ** rng.uniform(-3, 0) for _ in range(n)]
+    if n >= 2:
+        i, j = rng.sample(range(n), 2)
+        fr[i], fr[j] = 1.0, 1e-3
+    else:
+        fr[0] = 1.0
+    return (np.array(fr) * top).reshape(shape)
+
+
+def run_magnitude_block(ctx, tier, mi):
+    """Histograms (1-d, 2-d, direct and through the viewer layer, log and linear) of an attribute of magnitude
+    MAGNITUDES[mi] over ranges whose ends are data values."""
+    rng = ctx.rng
+    top = MAGNITUDES[mi]
+    for _ in range(3):
+        nd = rng.choice([1, 1, 2])
+        shape = (rng.randint(4, 14),) if nd == 1 else (rng.randint(2, 4), rng.randint(2, 4))
+        ds = make_dataset(rng, tier, shape=shape, with_collection=True)
+        top2 = rng.choice(MAGNITUDES)
+        for name, t in (("m", top), ("m2", top2)):
+            ds.raw[name] = magnitude_column(rng, shape, t)
+            ds.data.add_component(ds.raw[name].copy(), name)
+            ds.kinds[name] = "float_magnitude"
+        for k in range(14):
+            sel_kind = rng.choice(["none", "none", "ineq", "mask", "pixrange", "or"])
+            sel = checked_selection(ctx, rng, ds, sel_kind)
+            if sel is None:
+                continue
+
+            def query(attr):
+                x = ds.raw[attr][sel[1]] if sel[1].any() and rng.random() < 0.7 else ds.raw[attr]
+                if rng.random() < 0.75 or len(set(x.ravel().tolist())) < 2:
+                    lo, hi, rk = float(x.min()), float(x.max()), "data_minmax"
+                else:
+                    lo, hi = sorted(rng.sample(sorted(set(x.ravel().tolist())), 2))
+                    rk = "data_values"
+                return {"attr": attr, "weights": rng.choice([None, None, "i", "w"]), "sel_kind": sel_kind,
+                        "log": rng.random() < 0.65, "range_kind": rk, "reversed": rng.random() < 0.2, "lo": lo, "hi": hi,
+                        "bins": rng.randint(1, 12), "bins_kind": "free"}
+            qx = query("m")
+            ctx.count("magnitude_hist_queries")
+            ctx.count("magnitude_hist_log" if qx["log"] else "magnitude_hist_linear")
+            if top >= 1e4:
+                ctx.count("magnitude_hist_large_log" if qx["log"] else "magnitude_hist_large_linear")
+            r = k % 3
+            if r == 0:
+                run_hist_query(ctx, rng, ds, qx, sel=sel)
+            elif r == 1:
+                qx["weights"], qx["reversed"] = None, False
+                run_hist_through_layer(ctx, rng, ds, qx, sel=sel)
+            else:
+                run_hist2d_query(ctx, rng, ds, qx, query(rng.choice(["m2", "m2", "w"])), sel)
+    ctx.count("magnitude_blocks")
 
 
 # ---------------------------------------------------------------- boundary guard
@@ -990,6 +1076,7 @@ def setup(ctx):
 # ---------------------------------------------------------------- driver
 def cases(tier, seed):
     grid = [["grid", si, sk] for si in range(len(GRID_SHAPES)) for sk in GRID_SELECTIONS]
+    grid += [["mag", mi, rep] for rep in range(1 if tier == "quick" else 8) for mi in range(len(MAGNITUDES))]
     ns, nh, nv = N_STAT_BLOCKS[tier], N_HIST_BLOCKS[tier], N_VIEWER_BLOCKS[tier]
     # interleave so that every shard (and a run cut by the time cap) sees every class
     streams = [iter(grid), iter(["viewer", i] for i in range(nv)), iter(["hist", i] for i in range(nh)),
@@ -1020,13 +1107,16 @@ def run_case(ctx, case):
         run_grid(ctx, ctx.tier, case[1], case[2])
     elif kind == "viewer":
         run_viewer_block(ctx, ctx.tier)
+    elif kind == "mag":
+        run_magnitude_block(ctx, ctx.tier, case[1])
     else:
         raise ValueError(case)
 
 
 def floors(counters, tier):
     out = []
-    need = {"stat_compared": 1500, "hist_compared": 800, "hist2d_compared": 150, "stat_chunking_chunked_reduction": 300,
+    need = {"stat_compared": 1500, "hist_compared": 800, "hist2d_compared": 150, "magnitude_hist_large_log": 25,
+            "magnitude_hist_large_linear": 10, "hist_value_at_positive_log_upper_end": 40, "stat_chunking_chunked_reduction": 300,
             "stat_minimal_subarray_configuration": 400, "stat_padding_configuration": 200,
             "stat_slice_state_shortcut_configuration": 40, "stat_nothing_qualifies": 50, "stat_zero_size_view": 30,
             "hist_log": 50, "hist_weighted": 100, "hist_reversed_range": 50, "hist_cases_with_edge_coincident_values": 30,
